@@ -13,7 +13,8 @@
 (*  Layout(b)       field table of a valid file: header / chunk-header /   *)
 (*                  sub-header byte regions and numeric fields             *)
 (*  Mutants(b)      field-aware corruptions: every truncation, every       *)
-(*                  header byte replaced by boundary values, every numeric *)
+(*                  header byte and every padding byte replaced by boundary *)
+(*                  values (padding also all bytes at once), every numeric *)
 (*                  field replaced by {0,1,n-1,n+1,n+100,2^31-1,2^31,      *)
 (*                  2^32-1,2^32,2^63-1,2^63,2^64-100,2^64-1},              *)
 (*                  chunks dropped / duplicated / swapped / EOF moved      *)
@@ -189,7 +190,10 @@ ChunkExtents(b, o) ==
 
 ChunkLayout(b, x, dirTypes) ==
   LET o == x.o  p == o + 16  n == U64(b, o + 8) - b[o + 5]
-      base == [regions |-> <<[o |-> o, n |-> 16]>>, nums |-> <<[o |-> o + 5, n |-> 1], [o |-> o + 8, n |-> 8]>>]
+      pad == b[o + 5]
+      \* the chunk header and, byte by byte, the padding behind the payload
+      base == [regions |-> <<[o |-> o, n |-> 16]>> \o (IF pad > 0 THEN <<[o |-> p + n, n |-> pad]>> ELSE <<>>),
+               nums |-> <<[o |-> o + 5, n |-> 1], [o |-> o + 8, n |-> 8]>>]
   IN IF x.type = TagVERT THEN
           [regions |-> base.regions \o <<[o |-> p, n |-> 16]>>, nums |-> base.nums \o <<[o |-> p, n |-> 8], [o |-> p + 8, n |-> 4]>>]
      ELSE IF x.type = TagTOPO THEN
@@ -267,6 +271,9 @@ Mutants(b) ==
    \cup UNION {UNION {{[k |-> "byte", at |-> o, del |-> 1, ins |-> <<v>>] : v \in ByteValues(b[o])}
                       : o \in L.regions[r].o .. L.regions[r].o + L.regions[r].n - 1} : r \in DOMAIN L.regions}
    \cup UNION {{[k |-> "num", at |-> L.nums[f].o, del |-> L.nums[f].n, ins |-> v] : v \in NumValues(b, L.nums[f])} : f \in DOMAIN L.nums}
+   \cup UNION {{[k |-> "padall", at |-> L.chunks[i].o + L.chunks[i].len - b[L.chunks[i].o + 5], del |-> b[L.chunks[i].o + 5],
+                  ins |-> [j \in 1 .. b[L.chunks[i].o + 5] |-> v]] : v \in {1, 128, 255}}
+               : i \in {x \in DOMAIN L.chunks : b[L.chunks[x].o + 5] > 0}}
    \cup ChunkMutants(b)
    \cup {[k |-> "append", at |-> n + 1, del |-> 0, ins |-> v] : v \in {<<0>>, FF(16), Slice(b, 1, Min2(n, 48))}}
 
